@@ -3,7 +3,7 @@
    memory_pool_collection; implementation logs (results, ranges handed to the lists via the guarded insert
    hook, upstream calls, capacity figures after every operation) are replayed against acc_op. *)
 From Coq Require Import ZArith List Bool.
-From FM Require Import FixedStack SmallCarve PoolSpec SlotProofs ListLib PoolSpecProofs OrderedList OrderedListProofs UnorderedList UnorderedListProofs.
+From FM Require Import FixedStack SmallCarve PoolSpec SlotProofs ListLib PoolSpecProofs OrderedList OrderedListProofs UnorderedList UnorderedListProofs InvalidRelease SmallList SmallListProofs.
 Import ListNotations.
 Local Open Scope Z_scope.
 
@@ -85,6 +85,44 @@ Theorem C04_unordered_array_allocation_takes_a_listed_run : forall l bytes x l',
   (forall k, (k < u_nodes_for l bytes)%nat -> In (x + Z.of_nat k * u_ns l) (u_nodes l) /\ ~ In (x + Z.of_nat k * u_ns l) (u_nodes l')).
 Proof. exact u_alloc_array_inv. Qed.
 Print Assumptions C04_unordered_array_allocation_takes_a_listed_run.
+
+(* the small free list (Exec model of detail::small_free_memory_list).  While capacity is left, allocate() finds a chunk with a
+   free node -- the search (allocation cursor, deallocation cursor, then outwards round the ring of chunks) cannot miss one,
+   so it ends -- and takes exactly one node off the free chains; capacity drops by one, the layout is unchanged *)
+Theorem C04_small_list_allocate_takes_one_free_node : forall l, SmInv l -> 0 < sm_capacity l ->
+  exists p l', sm_alloc l = Some (p, l') /\ SmInv l' /\ sm_capacity l' = sm_capacity l - 1 /\
+               Permutation.Permutation (free_addrs (sm_ns l) (sm_chunks l)) (p :: free_addrs (sm_ns l') (sm_chunks l')) /\
+               sm_ns l' = sm_ns l /\ map c_mem (sm_chunks l') = map c_mem (sm_chunks l) /\ map c_nodes (sm_chunks l') = map c_nodes (sm_chunks l).
+Proof. exact sm_alloc_spec. Qed.
+Print Assumptions C04_small_list_allocate_takes_one_free_node.
+
+Theorem C04_small_list_chunk_search_finds_room : forall l q, (sm_ac l < ring_size l)%nat -> has_room l q = true ->
+  exists p, find_chunk l = Some p /\ has_room l p = true.
+Proof. exact find_chunk_complete. Qed.
+Print Assumptions C04_small_list_chunk_search_finds_room.
+
+(* a released node goes back on the chain of its chunk: it is free again, exactly once, and capacity rises by one *)
+Theorem C04_small_list_release_returns_the_node : forall l p c, SmInv l -> In c (sm_chunks l) -> c_from (sm_ns l) c p = true -> (p - c_mem c) mod sm_ns l = 0 ->
+  ~ In p (free_addrs (sm_ns l) (sm_chunks l)) ->
+  exists l', sm_dealloc l p = Some l' /\ SmInv l' /\ sm_capacity l' = sm_capacity l + 1 /\
+             Permutation.Permutation (free_addrs (sm_ns l') (sm_chunks l')) (p :: free_addrs (sm_ns l) (sm_chunks l)) /\
+             sm_ns l' = sm_ns l /\ map c_mem (sm_chunks l') = map c_mem (sm_chunks l) /\ map c_nodes (sm_chunks l') = map c_nodes (sm_chunks l).
+Proof. exact sm_dealloc_spec. Qed.
+Print Assumptions C04_small_list_release_returns_the_node.
+
+(* no operation within the preconditions gets stuck, over any history *)
+Theorem C04_small_list_history_invariant : forall os g g', GInv g -> grun g os = Some g' -> GInv g'.
+Proof. exact grun_inv. Qed.
+Print Assumptions C04_small_list_history_invariant.
+
+Theorem C04_small_list_progress : forall g o, GInv g ->
+  match o with
+  | GIns mem size => True
+  | GAlloc => 0 < sm_capacity (g_l g) -> exists g', gstep g o = Some g'
+  | GDealloc p => In p (g_live g) -> exists g', gstep g o = Some g'
+  end.
+Proof. exact gstep_progress. Qed.
+Print Assumptions C04_small_list_progress.
 
 (* non-vacuity: an accepted history on a 16-byte list: insert 10 nodes, take a 3x8-byte array (2 nodes) and a node, give both back *)
 Example C04_nonvacuous :
